@@ -199,6 +199,12 @@ def items(tier):
                 for prior in (True, False):
                     out.append((d, ab, "success", remove, 1, 1, "alone", prior))
                     out.append((d, ab, "success", remove, 3, 2, "after-pred", prior))
+        # every absence calendar with <= 4 absence steps inside the sub-project's run (the last step of a run is a working step), absence removed
+        if d <= 4:
+            for k in range(2, 5):
+                for ab in itertools.combinations(range(d + k - 1), k):
+                    for us, up in ((1, 1), (2, 3)):
+                        out.append((d, ab, "success", True, us, up, "alone", None))
         # day-sized and 36-hour units; the configured parent saved, loaded and related again; parent runs with absence steps
         for us, up in ((1440, 60), (1440, 360), (2160, 360), (60, 1440), (1440, 1440)):
             for pos in ("alone", "after-pred"):
@@ -227,7 +233,7 @@ def run(tier, seed):
     col = engines.fanout(its, work, seed=seed)
     meta = {
         "level": "exploration",
-        "rule": "exhaustive grid: sub-projects of duration 1..%d x absence lists (none, step 0, step 1, consecutive, duplicated, beyond the end) saved after success / after FAILURE / never simulated "
+        "rule": "exhaustive grid: sub-projects of duration 1..%d x absence lists (none, step 0, step 1, consecutive, duplicated, beyond the end; every calendar of 2-4 absence steps inside the run when absence is removed) saved after success / after FAILURE / never simulated "
         "x remove_absence_time_list x every ordered pair of unit times from {1,2,3,5,60} min x position of the sub-project task in the parent (alone, after an FS predecessor, before a successor, beside a worked task) x history (first use of the saved file, or after another task was "
         "configured from the same file with either flag) x (the configured parent used directly, or saved, loaded and related again; units up to 36 hours) x (parent without absence, or with "
         "project-wide absence steps and the automatic-task flag set) x (team also assigned to the sub-project task with a worker skilled under its name; unit related several times, the real one last); "
